@@ -12,6 +12,8 @@ pub mod c10;
 // --- kit-wire (wirekit): C06, C16 ---------------------------------------------------------------
 // --- kit-wire2 (wirekit2): C13, C17, C19 --------------------------------------------------------
 // --- kit-sim (simkit): C01-C05, C08, C09, C11, C12, C14, C15, C18(in-Sim), C20 ------------------
+#[cfg(feature = "kit-sim")]
+pub mod c05;
 
 pub enum Action<'a> {
     Check(&'a Options),
@@ -40,6 +42,8 @@ pub fn dispatch(id: &str, a: &Action) -> i32 {
         // (kit-wire arms)
         // (kit-wire2 arms)
         // (kit-sim arms)
+        #[cfg(feature = "kit-sim")]
+        "C05" => act::<c05::C05>(a),
         other => {
             eprintln!("harness error: no check registered for property {other} in this build");
             2
